@@ -125,18 +125,19 @@ RECURSIVE DigitsVal(_)
 DigitsVal(ds) == IF ds = <<>> THEN 0 ELSE DigitsVal(SubSeq(ds, 1, Len(ds) - 1)) * 10 + ds[Len(ds)]
 
 NumBig == [k |-> "numbig"]
-\* value of  [-] ids [. fds] [e [-] eds]
+\* value of  [-] ids [. fds] [e [-] eds].  A literal is outside the model (NumBig, a declared
+\* don't-care) when it has more than 15 significant digits or a magnitude of 10^15 or more:
+\* beyond that an implementation reading literals through binary64 need not be exact.
 NumLitVal(neg, ids, fds, eneg, eds) ==
     LET all  == StripLead(ids \o fds)
         sig  == StripTrail(all)
         tz   == Len(all) - Len(sig)
         exd  == StripLead(eds)
     IN  IF sig = <<>> THEN Num(0, 0)
-        ELSE IF Len(sig) > 9 \/ Len(exd) > 2 THEN NumBig
+        ELSE IF Len(sig) > 15 \/ Len(exd) > 3 THEN NumBig
         ELSE LET x == (IF eneg THEN -DigitsVal(exd) ELSE DigitsVal(exd)) - Len(fds) + tz
-                 m == DigitsVal(sig)
-             IN  IF x > 40 \/ x < -40 THEN NumBig
-                 ELSE Num(IF neg THEN -m ELSE m, x)
+             IN  IF Len(sig) + x > 15 \/ x < -60 THEN NumBig
+                 ELSE NumDs(neg, sig, x)
 
 \* number = (int / "-0") [ frac ] [ exp ]
 ParseNumber(s, i) ==
